@@ -32,9 +32,11 @@ import (
 	"k8s.io/apimachinery/pkg/apis/meta/v1/unstructured"
 
 	"github.com/flant/shell-operator/pkg/hook/config"
+	"github.com/flant/shell-operator/pkg/hook/controller"
 	"github.com/flant/shell-operator/pkg/hook/task_metadata"
 	kemtypes "github.com/flant/shell-operator/pkg/kube_events_manager/types"
 	metricstorage "github.com/flant/shell-operator/pkg/metric_storage"
+	schedulemanager "github.com/flant/shell-operator/pkg/schedule_manager"
 	shell_operator "github.com/flant/shell-operator/pkg/shell-operator"
 	"github.com/flant/shell-operator/pkg/task"
 	"github.com/flant/shell-operator/pkg/task/queue"
@@ -797,4 +799,94 @@ func c03LoaderGen(c *Case, rng *Rng) {
 	c.Oracle("queuenames cfg=" + joinStrs(cfgL) + " got=" + joinStrs(got))
 	c.Nontrivial = true
 	c.Note("kind:loader-" + ver)
+}
+
+// c03Controller: a generated configuration (v0 or v1, 1-5 schedule bindings with crontabs from a pool of
+// three, so several bindings share one; `queue` absent or named) through the real loader into a real
+// HookController with a real (not started) schedule manager; EnableScheduleBindings, then one
+// HandleScheduleEvent per crontab. Compared with Model/Routing (op schedfan) and judged by the oracle
+// fanout: one info per binding with that crontab, for the queue it names.
+func c03Controller(c *Case, rng *Rng) {
+	v0 := rng.Chance(30)
+	pool := []string{"1 1 1 1 *", "*/5 * * * *", "3 3 3 3 *"}
+	queues := []string{"", "", "qa", "qb", "main"}
+	type bnd struct {
+		name, queue string
+		ct          int
+	}
+	var bs []bnd
+	for j := rng.Range(1, 5); j > 0; j-- {
+		b := bnd{name: fmt.Sprintf("s%d", len(bs)+1), ct: rng.Intn(len(pool))}
+		if !v0 {
+			b.queue = PickOne(rng, queues)
+		}
+		bs = append(bs, b)
+	}
+	var y strings.Builder
+	if !v0 {
+		y.WriteString("configVersion: v1\n")
+	}
+	y.WriteString("schedule:\n")
+	for _, b := range bs {
+		fmt.Fprintf(&y, "- name: %s\n  crontab: \"%s\"\n", b.name, pool[b.ct])
+		if b.queue != "" {
+			fmt.Fprintf(&y, "  queue: %s\n", b.queue)
+		}
+	}
+	ver := "v1"
+	if v0 {
+		ver = "v0"
+	}
+	c.Desc = "controller " + ver + " " + strings.ReplaceAll(strings.TrimSpace(y.String()), "\n", "\\n")
+	cfg := &config.HookConfig{}
+	if err := cfg.LoadAndValidate([]byte(y.String())); err != nil {
+		c.Op("loadconfig", "err")
+		return
+	}
+	c.Op("loadconfig", "ok")
+	ctx, cancel := context.WithCancel(context.Background())
+	defer cancel()
+	hc := controller.NewHookController()
+	hc.InitScheduleBindings(cfg.Schedules, schedulemanager.NewScheduleManager(ctx, log.NewNop()))
+	hc.EnableScheduleBindings()
+	// what the loader made of it, as the model's input: name / entry id (interned) / crontab / queue key as written
+	ids := map[string]string{}
+	var line []string
+	for i, s := range cfg.Schedules {
+		if _, ok := ids[s.ScheduleEntry.Id]; !ok {
+			ids[s.ScheduleEntry.Id] = fmt.Sprintf("e%d", len(ids)+1)
+		}
+		q, ct := "-", "c?"
+		if i < len(bs) && bs[i].queue != "" {
+			q = bs[i].queue
+		}
+		for k, p := range pool {
+			if p == s.ScheduleEntry.Crontab {
+				ct = fmt.Sprintf("c%d", k+1)
+			}
+		}
+		line = append(line, fmt.Sprintf("%s/%s/%s/%s", s.BindingName, ids[s.ScheduleEntry.Id], ct, q))
+	}
+	for k, p := range pool {
+		var got []string
+		hc.HandleScheduleEvent(p, func(info controller.BindingExecutionInfo) {
+			got = append(got, info.Binding+"="+showQueueName(info.QueueName))
+		})
+		sort.Strings(got)
+		c.Op(fmt.Sprintf("schedfan v=%s bs=%s tick=c%d", ver, joinStrs(line), k+1), joinStrs(got))
+		var cfgL []string
+		for _, b := range bs {
+			if b.ct == k {
+				q := b.queue
+				if q == "" {
+					q = "-"
+				}
+				cfgL = append(cfgL, b.name+":"+q)
+			}
+		}
+		sort.Strings(cfgL)
+		c.Oracle(fmt.Sprintf("fanout kind=schedule cfg=%s got=%s", joinStrs(cfgL), joinStrs(got)))
+	}
+	c.Nontrivial = len(bs) >= 2
+	c.Note("kind:controller-" + ver)
 }
